@@ -98,10 +98,10 @@ func (u *Upstream) Accept() (*tls.Conn, error) {
 // countConn counts bytes in both directions and writes in PRNG-sized
 // pieces (every piece is its own TLS record).
 type countConn struct {
-	c        net.Conn
-	rd, wr   int64
-	seg      func(n int) int // may be nil
-	segMu    sync.Mutex
+	c      net.Conn
+	rd, wr int64
+	seg    func(n int) int // may be nil
+	segMu  sync.Mutex
 }
 
 func (c *countConn) Read(p []byte) (int, error) {
